@@ -366,6 +366,8 @@ def r6(chk, ctx, se):
 
 
 def run(chk, ctx):
+    from . import generic
+    generic.definite_assignment(chk, ctx, ['state_engine_paths'], "C12.DA")   # no local is read before it is bound (UnboundLocalError = an arbitrary exception)
     r6(chk, ctx, ctx.mod("state_engine"))
     sp = ctx.mod("state_engine_paths")
     p = ctx.protocol()
